@@ -23,6 +23,7 @@
 #include <stdexcept>
 #include <cmath>
 #include <algorithm>
+#include <limits>
 
 #include "count_zeros.hpp"
 #include "conditional_forward.hpp"
@@ -402,6 +403,7 @@ req_compactor<T, C, A> req_compactor<T, C, A>::deserialize(std::istream& is, con
   read<uint16_t>(is); // padding
   auto num_items = read<uint32_t>(is);
   if (!is.good()) throw std::runtime_error("error reading from std::istream");
+  check_sections(section_size_raw, num_sections);
   check_num_items(num_items, max_num_items);
   auto items = deserialize_items(is, serde, allocator, num_items);
   return req_compactor(hra, lg_weight, sorted, section_size_raw, num_sections, state, std::move(items), num_items,
@@ -415,6 +417,20 @@ req_compactor<T, C, A> req_compactor<T, C, A>::deserialize(std::istream& is, con
   auto items = deserialize_items(is, serde, allocator, num_items);
   return req_compactor(hra, 0, sorted, k, req_constants::INIT_NUM_SECTIONS, 0, std::move(items), num_items,
       comparator, allocator);
+}
+
+template<typename T, typename C, typename A>
+void req_compactor<T, C, A>::check_sections(float section_size_raw, uint8_t num_sections) {
+  // the section size starts at k (16 bits) and only shrinks while its nearest even value is at least MIN_K
+  // written so that NaN fails
+  if (!(section_size_raw > 0 && section_size_raw <= std::numeric_limits<uint16_t>::max())
+      || nearest_even(section_size_raw) < req_constants::MIN_K) {
+    throw std::invalid_argument("Possible corruption: invalid section size " + std::to_string(section_size_raw));
+  }
+  if (num_sections < req_constants::INIT_NUM_SECTIONS) {
+    throw std::invalid_argument("Possible corruption: number of sections must be at least "
+        + std::to_string(req_constants::INIT_NUM_SECTIONS) + ", got " + std::to_string(num_sections));
+  }
 }
 
 template<typename T, typename C, typename A>
@@ -459,6 +475,7 @@ std::pair<req_compactor<T, C, A>, size_t> req_compactor<T, C, A>::deserialize(co
   ptr += 2; // padding
   uint32_t num_items;
   ptr += copy_from_mem(ptr, num_items);
+  check_sections(section_size_raw, num_sections);
   check_num_items(num_items, max_num_items);
   auto pair = deserialize_items(ptr, end_ptr - ptr, serde, allocator, num_items);
   ptr += pair.second;
